@@ -546,7 +546,19 @@ func c10Routing(c *Ctx, F *model.Fields) {
 	g1 := A.AtomIndex("(len(" + gs + ") == 0)")
 	g2a := A.AtomIndex("mapok(" + es + "," + elemName.Name() + ")")
 	g2b := A.AtomIndex("(len(lookup(" + es + "," + elemName.Name() + ")#0) == 0)")
-	if styleKey < 0 || g1 < 0 || g2a < 0 || g2b < 0 {
+	// the element's own rules may also be tested with a plain lookup: len(p.elsAndStyles[name]) > 0
+	g2c := A.AtomIndex("(len(lookup(" + es + "," + elemName.Name() + ")) == 0)")
+	var elemRules *pa.F
+	switch {
+	case g2a >= 0 && g2b >= 0 && g2c >= 0:
+		elemRules = pa.Or(pa.And(pa.AtomF(g2a), pa.Not(pa.AtomF(g2b))), pa.Not(pa.AtomF(g2c)))
+	case g2a >= 0 && g2b >= 0:
+		elemRules = pa.And(pa.AtomF(g2a), pa.Not(pa.AtomF(g2b)))
+	case g2c >= 0:
+		elemRules = pa.Not(pa.AtomF(g2c))
+		g2a, g2b = g2c, g2c
+	}
+	if styleKey < 0 || g1 < 0 || elemRules == nil {
 		R.Unknown("C10.R1", "atoms", "(*Policy).sanitizeAttrs: style routing tests", c.P.Pos(fn.Pos()), fmt.Sprintf("expected tests not found (key==\"style\": %v, len(globalStyles): %v, elsAndStyles lookup: %v, its length: %v)", styleKey >= 0, g1 >= 0, g2a >= 0, g2b >= 0))
 		return
 	}
@@ -570,6 +582,9 @@ func c10Routing(c *Ctx, F *model.Fields) {
 		}
 	}
 	track := []int{styleKey, g1, g2a, g2b, evPS, evScan}
+	if g2c >= 0 {
+		track = append(track, g2c)
+	}
 	track = append(track, msAtoms...)
 	track = append(track, nonEmptyV...)
 	q, err := A.NewQuery(track)
@@ -623,7 +638,7 @@ func c10Routing(c *Ctx, F *model.Fields) {
 		}
 	}
 	q.Run(fn.Blocks[0], q.InitWith(map[int]bool{evPS: false, evScan: false}))
-	exist := pa.Or(pa.Not(pa.AtomF(g1)), pa.And(pa.AtomF(g2a), pa.Not(pa.AtomF(g2b))), pa.AtomF(evPS))
+	exist := pa.Or(pa.Not(pa.AtomF(g1)), elemRules, pa.AtomF(evPS))
 	R.Role("C10.R1", "scans of the pattern-scoped style rules in sanitizeAttrs", len(scanLoops), 1)
 	// the data-attribute branch: appends reached only under isDataAttribute(key)
 	var dataF *pa.F
